@@ -190,9 +190,10 @@ def run_check(prop_id, tier="quick", seed=0, replay=None):
     lines = []
     seen_known = set()
     for k, e in known_hits:
-        if k["fingerprint"] in seen_known:
+        kid = k.get("id") or k.get("fingerprint") or k["fingerprints"][0]
+        if kid in seen_known:
             continue
-        seen_known.add(k["fingerprint"])
+        seen_known.add(kid)
         lines.append("KNOWN-FINDING: property=%s %s" % (prop_id, k["what_fails"]))
     rc = 0
     for fp, e in new_fps:
